@@ -150,11 +150,19 @@ def replay(case):
     # ---- LL(1) trees
     parser = LLOneParser(g)
     rl = guard.call(parser.is_llone_parsable)
-    if rl[0] == "ok" and rl[1] and c14.useless_free(case["prods"]):
+    if rl[0] == "ok" and rl[1]:
+        # the library says LL(1): every tree it hands out is judged, and a non-member is refused with the documented
+        # exception, also on grammars with useless symbols (membership of such grammars is C14's business, not claimed here)
+        res = []
         for w in words:
             r = guard.call(LLOneParser(g).get_llone_parse_tree, list(w), timeout=2.0)
             if r[0] == "ok":
+                res.append("tree")
                 evs.append(tree_event("llone_tree", G, G, w, r[1]))
+            else:
+                res.append(r[1] if r[0] == "exc" else "Timeout")
+        evs.append({"op": "llone_refuse", "G": G, "L": Lw, "words": [cfgh.tagw(w) for w in words], "results": res,
+                    "refusal": "NotParsableException", "skip": [cfgh.tagw(w) for w in words]})
     # ---- recursive descent, both directions, inside the termination domain only
     for left in (True, False):
         if not rd_domain(case["prods"], left):
